@@ -390,6 +390,9 @@ func model(p *plan, g *truth) expect {
 	exact := func(want int64) {
 		e.PosClass = class(want)
 		e.Cross = want < S || want > E
+		if want < 0 {
+			want = 0 // no offset is below 0: the nearest boundary of a log starting at 0 is 0 itself
+		}
 		if want >= S && want <= H {
 			if p.RC && want > L {
 				e.DontCare = "exact-offset-inside-log-above-lso-under-read-committed"
@@ -400,9 +403,6 @@ func model(p *plan, g *truth) expect {
 		}
 		e.OOR = true
 		e.Raw = want
-		if e.Raw < 0 {
-			e.Raw = 0
-		}
 		switch {
 		case p.Mode == "parts":
 			// ConsumePartitions offset is out of range and the reset policy is a
@@ -478,15 +478,21 @@ func model(p *plan, g *truth) expect {
 			default:
 				e.PosClass = "between"
 			}
+			inBatch := 0
+			for _, q := range g.Recs {
+				if q.BatchBase == r.BatchBase {
+					inBatch++
+				}
+			}
 			switch {
 			case !mono:
 				e.MilliCase = "timestamps-out-of-order"
 			case r.BatchBase < S:
 				e.MilliCase = "batch-straddles-log-start"
-			case r.BatchBase != r.Offset:
-				e.MilliCase = "target-inside-batch"
+			case inBatch > 1:
+				e.MilliCase = "multi-record-batch"
 			default:
-				e.MilliCase = "target-first-of-batch"
+				e.MilliCase = "single-record-batch"
 			}
 			if p.RC && L < H && found >= L {
 				e.DontCare = "aftermilli-hit-at-or-above-lso-under-read-committed"
@@ -920,7 +926,11 @@ func runCase(r *vh.Run, i int) {
 		sigClass += "/" + ex.MilliCase
 	}
 	if resolved != ex.Pos {
-		r.Violation(fmt.Sprintf("resolved fetch offset differs from the documented position: kind=%s iso=%s class=%s", kindKey, iso, sigClass),
+		sig := fmt.Sprintf("resolved fetch offset differs from the documented position: kind=%s iso=%s class=%s", kindKey, iso, sigClass)
+		if ex.MilliCase != "" {
+			sig = fmt.Sprintf("AfterMilli: resolved fetch offset is not the first offset with timestamp >= t, else the end [%s]", ex.MilliCase)
+		}
+		r.Violation(sig,
 			wit(fmt.Sprintf("%s (mode %s): documented position %d, consumer fetched at %d", p.Off, p.Mode, ex.Pos, resolved)))
 		return
 	}
